@@ -350,4 +350,26 @@ example : (ecall eucKrEFam true () [0x61, 0xE9, 0x62] true .unlimited).res = .un
     ∧ (ecall eucKrEFam true () [0x61, 0xE9, 0x62] true .unlimited).read = 2 := by
   decide +kernel
 
+/-- the history relations are inhabited: x-user-defined, `a` U+00E9 `b` from UTF-16 with an 11-byte
+destination takes two with-replacement calls (`OutputFull` after `a&#233;`, then `b`) … -/
+example : EReplProto userDefinedEFam false Gen.ncrExtra () [0x61, 0xE9, 0x62]
+    [0x61, 38, 35, 50, 51, 51, 59, 0x62] true := by
+  have h1 : encRepl userDefinedEFam false Gen.ncrExtra true true 11 6 () [0x61, 0xE9, 0x62] []
+      = some ⟨.outputFull, 2, [0x61, 38, 35, 50, 51, 51, 59], true, (), [(1, 1, .unmappable 0xE9, 0)]⟩ := by rfl
+  have h2 : encRepl userDefinedEFam false Gen.ncrExtra true true 11 6 () [0x62] []
+      = some ⟨.inputEmpty, 1, [0x62], false, (), [(1, 1, .inputEmpty, 0)]⟩ := by rfl
+  exact EReplProto.lastStep (E := userDefinedEFam) () true 11 6 [0x61, 0xE9, 0x62] []
+    ⟨.outputFull, 2, [0x61, 38, 35, 50, 51, 51, 59], true, (), [(1, 1, .unmappable 0xE9, 0)]⟩ [0x62] false h1
+    (by decide)
+    (EReplProto.final (E := userDefinedEFam) () true 11 6 [0x62] []
+      ⟨.inputEmpty, 1, [0x62], false, (), [(1, 1, .inputEmpty, 0)]⟩ h2 rfl)
+
+/-- … and the raw API two calls (`Unmappable(U+00E9)` after `a`, then `b`); `manualBytes` of its
+events is the with-replacement output above, as `repl_history_eq_manual` says -/
+example : EProto userDefinedEFam () [0x61, 0xE9, 0x62] [.byte 0x61, .unmap 0xE9, .byte 0x62] :=
+  EProto.lastStep (E := userDefinedEFam) () [(0x61, 1), (0xE9, 1), (0x62, 1)] .unlimited [.byte 0x62] (by decide)
+    (EProto.final (E := userDefinedEFam) () [(0x62, 1)] .unlimited (by decide))
+
+example : manualBytes [.byte 0x61, .unmap 0xE9, .byte 0x62] = [0x61, 38, 35, 50, 51, 51, 59, 0x62] := by decide
+
 end EncodingRs.Thm.C09Enc
